@@ -1,12 +1,15 @@
 from propbase import Comp, Prop, reg
-from oracledefs import registry
+from oracledefs import registry, txvis
 
 REGISTRY = Comp('registry', n_quick=640, n_thorough=12000, oracle=registry.registry_oracle, nontrivial=registry.registry_nontrivial,
                 stats=registry.registry_stats, differential=False, header_lines=1, chunk_min=8, timeout=900, shrink=False)  # leaks are coin flips: delta debugging on them is unreliable and each attempt waits for deadlines
 
+TXVIS_C17 = Comp('txvis', n_quick=16, n_thorough=200, oracle=txvis.txvis_oracle, nontrivial=txvis.txvis_nontrivial, stats=txvis.txvis_stats,
+                 differential=False, chunk_min=2, timeout=900, shrink=False)
+
 reg(Prop('C17', 'Kevo.Props.C17',
          facts=['facts:tx.*'],
-         components=[REGISTRY],
+         components=[REGISTRY, TXVIS_C17],
          fact_tags=['tx:', 'tx.', 'transaction.', 'service.'],
          rule='component registry (implementation only): the real RegistryImpl + transaction.Manager (TTLs 25 ms / 60 s injected through '
               'NewManagerWithTTL / NewRegistryWithTTL) + the real KevoServiceServer handlers (BeginTransaction, TxGet, TxPut, TxDelete, '
@@ -18,7 +21,10 @@ reg(Prop('C17', 'Kevo.Props.C17',
               'GracefulShutdown, TxGet/TxPut/TxDelete with empty and 4097-byte keys; after every block the probe "a fresh read-write '
               'transaction begins within 5 s" and "the manager reports 0 active transactions". Oracle: Python state machine '
               'predicting every answer (lib/oracledefs/registry.py). Non-trivial: a timeout / race / cleanup / shutdown / invalid key '
-              'followed by a successful probe; distinct by script hash.',
+              'followed by a successful probe; distinct by script hash. Plus component txvis, scenario failcommit: a commit that the storage '
+              'layer rejects (an entry larger than one log record, at the first / a middle / the last position of the write set) '
+              'must release the write lock (a new read-write transaction begins within 3 s), close the transaction (a second finish '
+              'is refused) and leave no trace, now and after a restart.',
          trusted_base=['Python specification lib/oracledefs/registry.py'],
          assumptions=['a client holds at most one transaction at a time (stated by the property)',
                       'calls on one transaction are atomic w.r.t. each other (tx.mu; fact tx.methods.mutex)',
